@@ -324,12 +324,117 @@ def check_form(ctx, form, xform, model=None):
     return holes
 
 
+# --------------------------------------------------------------------------- correspondence
+
+
+def survey_tree(el):
+    """The implementation's own element tree (Question | Section objects) as the model's `El`."""
+    from pyxform.question import Question
+    from pyxform.section import Section
+
+    kids = []
+    if isinstance(el, Section):
+        kids = [survey_tree(c) for c in el.children if isinstance(c, Question | Section)]
+    kind = "rep" if el.type == "repeat" else ("group" if isinstance(el, Section) else "q")
+    return {"k": kind, "n": el.name, "kids": kids}
+
+
+def survey_elements(survey):
+    from pyxform.question import Question
+    from pyxform.section import Section
+
+    return list(survey.iter_descendants(lambda i: isinstance(i, Question | Section)))
+
+
+FLAG_SHAPES = [
+    # (text around the reference, model flags)
+    ("${%s}", {}),
+    ("${last-saved#%s}", {"ls": True}),
+    ("indexed-repeat(${%s}, /x/y, 1)", {"ia": True}),
+    ("indexed-repeat(/x/y/z, /x/y, ${%s})", {}),
+    ("instance('l')/root/item[a = ${%s}]/label", {"ip": True}),
+]
+
+
+def corr_whole(ctx, form, holes, survey):
+    """every hole of the conversion against the model's `refFor` on the implementation's tree"""
+    tree = survey_tree(survey)
+    qs, hs = [], []
+    for h in holes:
+        if h["src"].count("indexed-repeat(") > 1:
+            ctx.count("fragment:unsupported(multiple indexed-repeat)")
+            continue
+        ctx.count("fragment:modelled")
+        q = {"ctx": h["trigger"] if h["cell"] == "trigger-value" else h["ctx"], "name": h["info"]["name"],
+             "ls": h["info"]["last_saved"], "ia": h["flags"]["ir_arg"] in (0, 1, 3, 5),
+             "ip": h["flags"]["in_pred"] and h["cell"] != "choice_filter", "uc": h["cell"] == "choice_filter", "rp": False}
+        qs.append(q)
+        hs.append(h)
+    if not qs:
+        return
+    res = ctx.driver.call("refs.model", tree=tree, queries=qs)
+    for h, q, m in zip(hs, qs, res):
+        got = h["hole"]
+        want = (m.get("text") or "").strip() if m["out"] == "ok" else m["out"]
+        if got != want:
+            ctx.mismatch(f"hole of {h['cell']}", {"form": form, "query": q}, got, want)
+
+
+def corr_direct(ctx, form, survey, rng, npairs):
+    """the Python functions called directly vs the Lean functions on the same tree"""
+    import pyxform.survey as ps
+    from pyxform.utils import BRACKETED_TAG_REGEX
+
+    tree = survey_tree(survey)
+    els = survey_elements(survey)
+    pairs = [(c, t) for c in els for t in els]
+    if len(pairs) > npairs:
+        pairs = rng.sample(pairs, npairs)
+    fq, fimpl = [], []
+    mq, mimpl = [], []
+    for c, t in pairs:
+        cx, tx = c.get_xpath(), t.get_xpath()
+        for rp in (False, True):
+            fq.append({"x": tx, "c": cx, "rp": rp})
+            steps, path = ps.share_same_repeat_parent(survey, tx, cx, rp)
+            fimpl.append({"ipar_x": ps.is_parent_a_repeat(survey, tx), "ipar_c": ps.is_parent_a_repeat(survey, cx),
+                          "ssrp": None if steps is None else [steps, path],
+                          "related": c.has_common_repeat_parent(t)[0] != "Unrelated"})
+        shape, fl = FLAG_SHAPES[rng.randrange(len(FLAG_SHAPES))]
+        for context in (c, None) if rng.random() < 0.1 else (c,):
+            for uc, rp in ((False, False), (True, False), (False, True)):
+                text = shape % t.name
+                m = BRACKETED_TAG_REGEX.search(text)
+                q = {"ctx": context.get_xpath() if context is not None else None, "name": t.name, "uc": uc, "rp": rp, **fl}
+                try:
+                    out = {"out": "ok", "text": survey._var_repl_function(m, context, uc, rp)}
+                except ps.PyXFormError as e:
+                    msg = str(e)
+                    out = {"out": "unknown" if "no survey element" in msg else "ambiguous" if "multiple survey elements" in msg else "error:" + msg,
+                           "name": t.name if f"${{{'last-saved#' if fl.get('ls') else ''}{t.name}}}" in msg and f"'{t.name}'" in msg else None}
+                except IndexError:
+                    out = {"out": "internal"}
+                mq.append(q)
+                mimpl.append(out)
+    fres = ctx.driver.call("refs.funcs", tree=tree, pairs=fq)
+    for q, a, b in zip(fq, fimpl, fres):
+        ctx.count("direct:functions")
+        if a != b:
+            ctx.mismatch("is_parent_a_repeat/share_same_repeat_parent/has_common_repeat_parent", {"form": form, "query": q}, a, b)
+    mres = ctx.driver.call("refs.model", tree=tree, queries=mq)
+    for q, a, b in zip(mq, mimpl, mres):
+        ctx.count(f"direct:_var_repl_function:{a['out']}")
+        b = {k: v for k, v in b.items() if k != "site"}
+        if a != b:
+            ctx.mismatch("_var_repl_function", {"form": form, "query": q}, a, b)
+
+
 # --------------------------------------------------------------------------- cases
 
 
-def form_case(ctx, form, expect=None, tag="layout"):
+def form_case(ctx, form, expect=None, tag="layout", direct=0):
     """expect: None (should convert) | {"error": name}"""
-    r = impl.run(form)
+    r = impl.run(form, want_survey=True)
     ctx.count(f"{tag}:impl:{r['class']}")
     case = {"form": form}
     nontrivial = False
@@ -345,6 +450,9 @@ def form_case(ctx, form, expect=None, tag="layout"):
     elif r["ok"]:
         holes = check_form(ctx, form, r["xform"])
         nontrivial = bool(holes)
+        corr_whole(ctx, form, holes, r["_survey"])
+        if direct:
+            corr_direct(ctx, form, r["_survey"], ctx.rng, direct)
     else:
         _fail(ctx, Failure("valid-form-rejected", f"{r['class']}: {r['msg'][:300]}", case))
     ctx.record(case, nontrivial)
@@ -361,7 +469,7 @@ def explore(ctx, factor, bs):
             form = layout_form(common, rchain, tchain, policy, target_first=(n % 2 == 0))
             ctx.count(f"policy:{policy}")
             ctx.count(f"depth:{len(common) + max(len(rchain), len(tchain))}")
-            form_case(ctx, form)
+            form_case(ctx, form, direct=ctx.pick(40, 120) * factor)
     ctx.notes["exhaustive"] = f"all layouts (common, referrer chain, target chain) of groups/repeats with depth <= {depth}: {n} forms"
 
 
